@@ -95,6 +95,7 @@ def gen_case(rng):
 
 
 def correspondence(ctx, model_ok):
+    gen.HOSTILE_P = 0.03     # unusual but legal labels: '', '@', 'a@b', mutual prefixes, case pairs
     r = CorrResult()
     r.rule = ('histories of rename_gate, replace_inputs, remove_gate, replace_subcircuit (cut-bounded slices with shared '
               'fan-out and outputs inside the slice, arbitrary replacement circuits, ~8% invalid arguments) mixed with '
